@@ -187,9 +187,16 @@ package node
 //@   requires @burn_parses validFA(GlobalBurnAddress)
 //@   requires @held_in_window_unexecuted heldUnexecuted(Lhold, Lrel, Lrated, currentHeight)
 //@   requires @held_in_window_unpaid{C06,C16} heldUnexecuted(Lhold, LpegPaid, Lrated, currentHeight)
+//@   requires @bank_row_present{C16} currentHeight >= config.V4OPRUpdate && currentHeight < config.V20HeightActivation ==> LbankPresent[currentHeight] && LbankAmt[currentHeight] == pegnet.BankBaseAmount
+//@   requires @activations{C16} activationsOrdered()
 //@   modifies Lbal, Lsupply, Lrel, Lexec, LtoAmt, Lrefund, LbankUsed, LbankReq, LpegPaid, d.LastAveragesData, d.LastAverages, d.LastAveragesHeight
 //@   ensures @status err == nil ==> statusInv(Lexec, Lrel, Lhist)
 //@   ensures @never_negative err == nil ==> balNonNeg(Lbal)
+//@   // from the V4 fork on, all pending PEG requests of the block are settled together, once, against the block's bank row;
+//@   // before it every held height is settled on its own (site contracts below); nothing is settled outside the limited era (C16)
+//@   ensures @one_pooled_settlement_from_v4{C16} err == nil && currentHeight >= config.V4OPRUpdate && currentHeight < config.V20HeightActivation ==> calls("recordPegnetRequests") == old(calls("recordPegnetRequests")) + 1
+//@   ensures @no_settlement_outside_the_limited_era{C16} currentHeight < config.PegnetConversionLimitActivation || currentHeight >= config.V20HeightActivation ==> calls("recordPegnetRequests") == old(calls("recordPegnetRequests"))
+//@   loop 1 invariant @no_per_height_settlement_from_v4{C16} currentHeight >= config.V4OPRUpdate || currentHeight < config.PegnetConversionLimitActivation ==> calls("recordPegnetRequests") == old(calls("recordPegnetRequests"))
 //@   loop 1 invariant @window lastRatedBefore(Lrated, currentHeight) <= i && i <= currentHeight && height == lastRatedBefore(Lrated, currentHeight)
 //@   loop 1 invariant @status statusInv(Lexec, Lrel, Lhist) && holdInv(Lhold, Lhist) && balNonNeg(Lbal)
 //@   loop 1 invariant @unexecuted forall h factom.Bytes32 :: i <= Lhold[h] && Lhold[h] < currentHeight ==> !Lrel[h]
@@ -207,10 +214,15 @@ package node
 //@   loop 1 no-break
 //@   loop 2 no-break
 //@
+//@ site-requires (*Pegnetd).ApplyTransactionBatchesInHolding | (*Pegnetd).recordPegnetRequests | 1
+//@   requires @per_height_settlement_only_before_v4{C16} currentHeight >= config.PegnetConversionLimitActivation && currentHeight < config.V4OPRUpdate && bank == pegnet.BankBaseAmount
+//@ site-requires (*Pegnetd).ApplyTransactionBatchesInHolding | (*Pegnetd).recordPegnetRequests | 2
+//@   requires @pooled_settlement_uses_the_block_bank{C16} currentHeight >= config.V4OPRUpdate && currentHeight < config.V20HeightActivation && bank == LbankAmt[currentHeight] && bankHeight == currentHeight
+//@
 //@ // ---- grading glue (C08 C11) -------------------------------------------------------------------------
 //@ spec func sprVersionAt(h int) int = h >= wrap_int32(config.V202EnhanceActivation) ? 7 : (h >= wrap_int32(config.SprSignatureActivation) ? 6 : 5)
 //@ spec func oprVersionAt(h int) int = h >= wrap_int32(config.V20HeightActivation) ? 5 : (h >= wrap_int32(config.V4OPRUpdate) ? 4 : (h >= wrap_int32(config.PEGFreeFloatingPriceActivation) ? 3 : (h >= wrap_int32(config.GradingV2Activation) ? 2 : 1)))
-//@ spec func activationsOrdered() bool = config.GradingV2Activation <= config.PEGFreeFloatingPriceActivation && config.PEGFreeFloatingPriceActivation <= config.V4OPRUpdate && config.V4OPRUpdate <= config.V20HeightActivation && config.V20HeightActivation <= config.SprSignatureActivation && config.SprSignatureActivation <= config.V202EnhanceActivation && config.V202EnhanceActivation <= 2147483647
+//@ spec func activationsOrdered() bool = config.GradingV2Activation <= config.PEGFreeFloatingPriceActivation && config.PEGFreeFloatingPriceActivation <= config.V4OPRUpdate && config.V4OPRUpdate <= config.V20HeightActivation && config.V20HeightActivation <= config.SprSignatureActivation && config.SprSignatureActivation <= config.V202EnhanceActivation && config.V202EnhanceActivation <= 2147483647 && config.PegnetConversionLimitActivation <= config.V4OPRUpdate
 //@
 //@ func (*Pegnetd).GradeS
 //@   props C08 C11
